@@ -80,13 +80,13 @@ PROPS['C18'] = dict(
     technique='Verus functional contract on the in-place de Casteljau subdivision (what it writes is a function of the control points alone, whatever the shared scratch buffers held); Kani two-history harnesses on the real Curve / BorrowedCurve / SliderPath code: compute A then B on shared buffers and compare bit-for-bit with B on fresh buffers; cache wiring proved loop-free',
     level_text='proved (Verus, every number of control points, every previous content of the three scratch buffers): after bezier_subdivide / bezier_approximate every entry a caller reads (l[m], r[m], m < points.len()) equals the de Casteljau triangle value tri(points, ..) -- a function of the control points only (float midpoint uninterpreted); calculate_path clears path and vertices before use and the four scratch vectors keep equal length. bounded stand-in for buffer independence (histories of two computations over single LINEAR segments, empty list included; multi-segment lists in the thorough tier) over all finite f32 coordinates; SliderPath cache fill / invalidation proved (Kani, loop-free, every requested length)',
     level_note='assumed: Pos::length is a deterministic function of its argument; Bezier / Catmull / circular-arc approximators are not exercised by the histories (float-heavy, out of CBMC reach)',
-    verus=[dict(unit='bez', tier='quick')], kani=['curve.kc'],
+    verus=[dict(unit='bez', tier='quick'), dict(unit='cat', tier='quick')], kani=['curve.kc'],
     only_prefix=['c18_'],
     kani_functions=['src/section/hit_objects/slider/curve.rs :: fn calculate_path', 'src/section/hit_objects/slider/curve.rs :: fn calculate_length',
                     'src/section/hit_objects/slider/curve.rs :: Curve::new / BorrowedCurve::new', 'src/section/hit_objects/slider/path.rs :: impl SliderPath (curve, curve_with_bufs, borrowed_curve, control_points_mut, expected_dist_mut, clear_curve)'],
     explanation='see level_text; per-obligation statements in coverage.samples[].states',
     trusted_base=_CURVE_TRUST, assumptions=[],
-    not_decided=['histories longer than two computations', 'the adaptive subdivision stack of approximate_bspline as a whole (its children are proved to be functions of the parent only), Catmull / circular-arc kinds'],
+    not_decided=['histories longer than two computations', 'the Catmull arm leaves the Bezier scratch buffers alone: stated on the real arm by unit cat (proved on the current tree), but an edit there easily leaves the Verus subset and CBMC does not finish the arm -- such a change is reported as undecided, not as a violation (seed C18-catmull-pass-borrows-bezier-scratch-buffer)', 'the adaptive subdivision stack of approximate_bspline as a whole (its children are proved to be functions of the parent only), Catmull / circular-arc kinds'],
 )
 
 PROPS['C19'] = dict(
@@ -107,9 +107,9 @@ PROPS['C19'] = dict(
 PROPS['C06'] = dict(
     category='other',
     technique='Kani frame contracts (Err => state equals old state) on the real section line parsers, run on concrete text templates with every numeric conversion replaced by "any value or an error"',
-    level_text='bounded stand-in: for each listed text template the harness covers every value of every numeric field and a rejection at every conversion point after every amount of partial progress; on Err the observable parser state (hit objects, last-object marker, state-held path buffer, pending control-point slots and group time) equals the state before the line',
+    level_text='bounded stand-in: for each listed text template the harness covers every value of every numeric field and a rejection at every conversion point after every amount of partial progress; on Err the observable parser state (hit objects, last-object marker, state-held path buffer, pending control-point slots and group time) equals the state before the line; proved (Verus unit enc, lines of every length): the text of a line handed to the parsers never contains text of an earlier line -- the shared lossy-decoding buffer is cleared before it is filled',
     level_note='assumed: std text->number conversion (replaced by nondeterministic results), memchr_aligned == naive search; text shapes outside the templates are not decided; flush_pending_points is used through its Verus-proved contract',
-    verus=[], kani=['support.kc', 'ho_lines.kc', 'tp_lines.kc', 'c11_sections.kc'],
+    verus=[dict(unit='enc', tier='quick')], kani=['support.kc', 'ho_lines.kc', 'tp_lines.kc', 'c11_sections.kc'],
     only_prefix=['ho_path_', 'ho_line_', 'ho_slider_line', 'tp_line_', 'c11_difficulty_', 'c11_general_', 'c11_event_', 'c11_color_', 'c11_editor_', 'c11_metadata_'],
     kani_functions=['src/section/hit_objects/decode.rs :: impl HitObjectsState :: fn convert_path_str / fn convert_points / fn point_split',
                     'src/section/hit_objects/decode.rs :: impl DecodeBeatmap for HitObjects :: fn parse_hit_objects',
